@@ -470,4 +470,42 @@ def main(tier):
     probes(chk, drift)
     for d in sorted(drift.values(), key=lambda x: (x['selector'], x['class'])):
         chk.drift.append(d)
+    _range_cover(chk, tier)
     return chk.finish()
+
+
+
+def _range_cover(chk, tier):
+    """:in-range / :out-of-range are disjoint and cover exactly the range-typed inputs having a valid bound: recorded selects on
+    seeded random inputs, validated by TLC against CssDecl (which dispatches to Calendar!RangeHolds)."""
+    import random
+    from harness import trace, gen
+    from harness.common import cps
+    rng = random.Random(common.SEED * 17 + 171)
+    vals = {'number': ['1', '5', '10', '-3', '2.5'], 'range': ['1', '5', '10'], 'date': ['2020-02-29', '2019-03-01', '2021-12-31'],
+            'month': ['2020-02', '2019-12'], 'week': ['2020-W10', '2021-W52'], 'time': ['08:30', '23:59', '00:00'],
+            'datetime-local': ['2020-02-29T10:00', '2019-01-01T00:00'], 'text': ['5'], 'checkbox': ['5']}
+    bad = ['low', '', '2019-02-30', '25:00', '2020-W60', 'x5']
+    jobs = []
+    for k in range(30 if tier == 'quick' else 300):
+        d = {'parent': [0], 'kind': ['e'], 'name': [cps('form')], 'ns': [[]], 'pfx': [[]], 'attrs': [[]], 'text': [[]], 'top': 'doc', 'xml': False}
+        for j in range(rng.randint(3, 8)):
+            ty = rng.choice(list(vals) + [None])
+            at = []
+            if ty is not None:
+                at.append({'k': cps('type'), 'ns': [], 'local': cps('type'), 'v': cps(rng.choice([ty, ty.upper()])), 'list': False})
+            for an in ('min', 'max', 'value'):
+                r = rng.random()
+                if r < 0.35:
+                    continue
+                pool = vals.get(ty, ['5'])
+                v = rng.choice(pool) if r < 0.8 else rng.choice(bad)
+                at.append({'k': cps(an), 'ns': [], 'local': cps(an), 'v': cps(v), 'list': False})
+            d['parent'].append(1); d['kind'].append('e'); d['name'].append(cps('input')); d['ns'].append([]); d['pfx'].append([])
+            d['attrs'].append(at); d['text'].append([])
+        K = lambda k: {'cs': [[{'k': k}]], 'cb': []}  # noqa: E731
+        asts = [[K('in-range')], [K('out-of-range')], [K('in-range'), K('out-of-range')],
+                [{'cs': [[{'k': 'type', 'ns': gen.BARE, 'name': cps('input')}, {'k': 'not', 'args': [K('in-range'), K('out-of-range')]}]], 'cb': []}]]
+        jobs.append(('rc%d' % k, d, asts, [0], None))
+    lines = trace.record_select(jobs)
+    trace.validate(chk, lines, 'Trace_Select', 'range-cover')
